@@ -153,8 +153,14 @@ def check_c05(pid, tier, t0, replay_key):
     findings += f1
     obl += o1
     samples += s1
+    f2, o2, s2, st2 = e5.rule_t2(P, E, M)
+    findings += f2
+    obl += o2
+    samples += s2
+    st1.update(st2)
     measured = {"functions_scanned": st3["functions_scanned"], "discard_sites": st3["discard_sites"],
-                "merge_list": len(st1["merge_list"]), "has_arms": st1["has_arms"], "bytes_for_arms": st1["bytes_for_arms"]}
+                "merge_list": len(st1["merge_list"]), "has_arms": st1["has_arms"], "bytes_for_arms": st1["bytes_for_arms"],
+                "count_fields_checked": st1["count_fields_checked"]}
     common.check_floors(pid, measured, tables)
     st = base_stats(P)
     st.update(st3)
@@ -168,7 +174,8 @@ def check_c05(pid, tier, t0, replay_key):
         "discard idioms (Result::ok/unwrap_or*/is_ok/is_err/map_or/iter on such a Result, a Result dropped unused, a match that never reads the Err "
         "payload) are each audited in tables/e3_allow.json (function + idiom + error type + multiplicity + reason) or reported. (T1) The table-assembly "
         "tables agree: arms of font::has == arms of font::bytes_for == TABLES_TO_MERGE, every arm touches exactly the slot of its own variant, the merge "
-        "list is within FontWork::read_access and contains the required tables, and every BE table slot some job writes is consumed. Together: if "
+        "list is within FontWork::read_access and contains the required tables, and every BE table slot some job writes is consumed; (T2) no count field "
+        "(number_of_*, num_*, *_count) of a write-fonts table built by a backend job is taken from the FEA override tables. Together: if "
         "compilation reports success, every table some job produced is in the font. NOT decided: directory/checksum/offset correctness (write-fonts' "
         "FontBuilder), cross-table index ranges, glyph-count agreement, acyclicity/depth of the output component graph (values).")
     rule_text = "one obligation per discard-site group (function, idiom, error type) and per T1 instance (arm, required table, slot); all enumerated, none sampled"
@@ -248,7 +255,105 @@ def check_c20(pid, tier, t0, replay_key):
                          f"./check {pid} --tier {tier}", replay_key)
 
 
+# ---------------------------------------------------------------------------------------------- C15
+def check_c15(pid, tier, t0, replay_key):
+    import e1, e3, e4
+    P = program()
+    tables = common.load_tables()
+    reach = e3.entry_reach(P)
+    findings, obl, samples = [], [], []
+    st = base_stats(P)
+    for fn in (lambda: e4.rule_x1(P), lambda: e4.rule_x2(P, reach), lambda: e4.rule_x3(P)):
+        f, o, s2 = fn()
+        findings += f
+        obl += o
+        st.update(s2)
+    E = e1.E1(P)
+    M = e1.build_model(E)
+    exc = tables.get("e1_exceptions", {})
+    Gs = [e1.Graph(M, E, fe, exc) for fe in e1.FE_CRATES if fe not in exc.get("excluded_front_ends", {})]
+    f, o, s, s2 = e4.rule_x4(P, reach, tables, (M, Gs))
+    findings += f
+    obl += o
+    samples += s
+    st.update(s2)
+    for fn in (lambda: e4.rule_x5(P, tables), lambda: e4.rule_x6(P), lambda: e4.rule_x7(P, tables)):
+        f, o, s2 = fn()
+        findings += f
+        obl += o
+        st.update(s2)
+    # a dropped error is also "a bogus font reported as built"
+    f3, o3, s3, st3 = e3.run(P, tables)
+    findings += f3
+    obl += o3
+    st.update({"e3_" + k: v for k, v in st3.items()})
+    common.check_floors(pid, st, tables)
+    if tier == "thorough":
+        st["selftest"] = run_selftest(pid)
+    explanation = (
+        "Decides the crash-containment structure and the recursion/stack-argument inventory of C15 from the current tree: (X1) AnyWork::exec is only "
+        "called from a closure passed to std::panic::catch_unwind, Work::exec impls are only invoked from AnyWork::exec, no Cargo profile sets "
+        "panic=abort; (X2) process::exit/abort are referenced only in the binary, main's Err arm always ends in exit(non-zero), and write_font_file is "
+        "only reachable after generate_font_internal returned Ok; (X3) no todo!()/unimplemented!() is reachable on the main thread outside a job; "
+        "(X4) every recursive call cycle reachable from the entry points is classified (tree / type-directed / grammar-bounded / bounded / "
+        "numeric-halving / input-length / input-nesting / graph) with its termination argument, and for input-nesting and graph recursion the named "
+        "guard is re-checked: a depth counter compared against a constant dominates the recursive calls (plist reader), the acyclicity check runs "
+        "in GlyphOrderWork before anything walks the component graph and the backend recursion is forced after it; a new or changed cycle must be "
+        "classified; (X5) the audited component-graph work-list loops run only inside GlyphOrderWork after the acyclicity check; (X6) include "
+        "cycles/too-deep includes are rejected before the recursive tree assembly; (X7) unsafe blocks are the audited six; (E3) no tracked error is "
+        "dropped. NOT decided: progress of the FEA/plist parser loops (token-set reasoning), memory and time bounds (e.g. exponential include or "
+        "class-product expansion), panics on the main thread other than todo!/unimplemented!.")
+    rule_text = "one obligation per caller / exit reference / stub function / recursive SCC / graph walk / guard clause / unsafe site / discard-site group"
+    assumptions = ["a panic inside a job is converted to Error::Panic by catch_unwind (std semantics); stack overflow is not a panic and is only excluded by the recursion census",
+                   "recursion classes recorded in tables/e4_recursion.json were confirmed by reading the pinned tree"]
+    return common.finish(pid, tier, t0, findings, obl, samples, explanation, rule_text, st, assumptions, TRUSTED,
+                         f"./check {pid} --tier {tier}", replay_key)
+
+
+# ---------------------------------------------------------------------------------------------- C13
+def check_c13(pid, tier, t0, replay_key):
+    import e3, e4, e5
+    P = program()
+    tables = common.load_tables()
+    findings, obl, samples = [], [], []
+    st = base_stats(P)
+    f, o, s2 = e4.rule_x6(P)
+    findings += f
+    obl += o
+    f, o, s, s2 = e5.rule_l1(P)
+    findings += f
+    obl += o
+    samples += s
+    st.update(s2)
+    # recursion census restricted to the FEA front end
+    reach = e3.entry_reach(P)
+    f, o, s, s2 = e4.rule_x4(P, reach, tables, None)
+    keep = ("fea_rs::parse", "fea_rs::token_tree", "fea_rs::compile::validate")
+    f = [x for x in f if any(k in x["key"] for k in keep)]
+    o = [x for x in o if any(k in x["inst"] for k in keep)]
+    findings += f
+    obl += o
+    st["fea_front_end_sccs"] = len(o)
+    common.check_floors(pid, st, tables)
+    if tier == "thorough":
+        st["selftest"] = run_selftest(pid)
+    explanation = (
+        "Decides two clauses of C13 only. (X6) The statement's last clause: in ParseContext::generate_parse_tree, IncludeGraph::validate dominates the "
+        "recursive tree assembly, its rejected edges are handed to generate_recurse which recurses only for statements not rejected, and validate "
+        "bounds the include depth by MAX_INCLUDE_DEPTH and keeps a seen set - cyclic or too-deep includes are reported instead of looping. (L1) A "
+        "necessary condition of losslessness: exactly one function (AstSink::token) advances the sink's source cursor, slicing by the same length it "
+        "advances by; the lexer is pulled only by Parser::advance; every function that advances the parser hands the consumed lexeme(s) to "
+        "AstSink::token. Plus the recursion census restricted to the FEA parser/token tree (each cycle there is tree- or grammar-bounded). NOT "
+        "decided - do not read this check as evidence for them: termination of the grammar's loops, panic-freedom (indexing/slicing/unwrap sites), "
+        "diagnostic ranges on character boundaries, the contextual-rule rewrite re-emitting every child.")
+    rule_text = "one obligation per guard clause, cursor writer, lexer caller, advance caller and FEA front-end recursive cycle"
+    return common.finish(pid, tier, t0, findings, obl, samples, explanation, rule_text, st, [], TRUSTED,
+                         f"./check {pid} --tier {tier}", replay_key)
+
+
 CHECKS = {
+    "C13": check_c13,
+    "C15": check_c15,
     "C02": check_c02,
     "C05": check_c05,
     "C14": check_c14,
